@@ -245,6 +245,41 @@ def make_segment(read, seqs, header):
         q.append(read["clip_right"])
     if read.get("hard_right"):
         cig.append((5, read["hard_right"]))
+    if read.get("eqx"):
+        # extended CIGAR (minimap2 --eqx): '=' for the matching stretches, 'X' for the mismatches of the "X" edits
+        # rebuild: walk the blocks again, this time with = / X
+        cig2 = []
+        if read.get("hard_left"):
+            cig2.append((5, read["hard_left"]))
+        if read.get("clip_left"):
+            cig2.append((4, len(read["clip_left"])))
+        for i, (s, e) in enumerate(blocks):
+            if i:
+                cig2.append((3, s - blocks[i - 1][1] - 1))
+            pos = s
+            if i in read.get("block_seq", {}) or str(i) in read.get("block_seq", {}):
+                cig2.append((0, e - s + 1))
+                continue
+            for off, kind, ln in sorted(edits.get(i, [])):
+                at = s + off
+                if at > pos:
+                    cig2.append((7, at - pos))
+                    pos = at
+                if kind == "I":
+                    cig2.append((1, ln))
+                elif kind == "D":
+                    cig2.append((2, ln))
+                    pos += ln
+                elif kind == "X":
+                    cig2.append((8, ln))
+                    pos += ln
+            if e + 1 > pos:
+                cig2.append((7, e + 1 - pos))
+        if read.get("clip_right"):
+            cig2.append((4, len(read["clip_right"])))
+        if read.get("hard_right"):
+            cig2.append((5, read["hard_right"]))
+        cig = cig2
     # merge adjacent equal ops
     merged = []
     for op, ln in cig:
